@@ -359,6 +359,24 @@ CHECKS = {
    design="7/C06", technique="Coq proof (ring algebra over an abstract *-ring with boolean comparison oracles; field over Q) + static tie: ssRedfieldRateMatrix, RedfieldRateMatrix._set_rates, the Foerster reference implementation with the exponent of _fintegral, the three analytic spectral densities and get_FTCorrelationFunction are re-translated from the current source on every run (statement templates with holes instantiated into the skeleton combinators of Proofs/C06gen.v - imperative loops with in-place mutation proved equal to the closed-form model) and proved equal to Model/C06.v + in-Coq correspondence (exact on integers, 1e-11 end to end; units-context cases), analytic-reference monitors"),
 }
 NOT_YET = {}
+# input dimensions added to the differential side after the seed waves of session 3 (DESIGN section 15); appended to the level notes
+ADDED = {
+ "C02": "complex Hermitian Hamiltonians (closed, Lindblad, RWA-vs-laboratory cases); exact pure-dephasing decay for every refinement",
+ "C03": "integer-typed positions; calculate_resonance_coupling without params after another aggregate was given a permittivity; the coupling matrix supplied before the molecules are added",
+ "C04": "objects created inside a context from a managed container (at() of evolutions and of the evolution superoperator); real tensors acting on states inside real and complex contexts",
+ "C05": "integer / shared-array inputs; generators consumed under units contexts; state energies and the electronic Hamiltonian in the transparency registry",
+ "C07": "apply() on density-matrix objects holding non-Hermitian data; site-basis diagonality of the operator form for uncoupled sites",
+ "C08": "operator-form Lindblad tensors; complex Hermitian Hamiltonians; the rotating-wave frame (RWA switched on before / after construction)",
+ "C09": "components with identical parameters (no bookkeeping label) through rebuilds",
+ "C10": "8-14 modes; shifts closer than 1e-3 and a very small shift; ground-state settings made before the mode is attached",
+ "C11": "Hamiltonians with a remainder coupling; integer-typed positions; non-zero ground-state energies; diagonalize() before the calculation (call-order monitor)",
+ "C12": "integer-typed pulse polarisations with a non-integer detection vector; dipole factors down to 2^-13 in the exact scaling clause; LabSetup re-use",
+ "C14": "one-exciton blocks of unequal size; two-component baths with the declared reorganisation energies as oracle; requests inside the eigenbasis of a complex Hermitian operator",
+ "C16": "multi-level molecules with baths on a subset of transitions through Molecule.get_KTHierarchyPropagator; complex Hermitian Hamiltonians; hierarchy depths with two-digit entries; non-zero ground-state energy",
+ "C17": "the corrections option of get_PropagationMatrix; propagate() after get_PropagationMatrix against a fresh propagator",
+ "C18": "units-managed getters and the objects' own units conversion read under third units; a response stored at pathways resolution",
+ "C19": "falsy tag 0; real-typed arrays among the additions; non-square stored arrays",
+}
 def main():
     checks = []
     for pid in sorted(CHECKS):
@@ -371,7 +389,7 @@ def main():
             "replay_cmd_template": "./check %s --replay {path}" % pid,
             "engine": "coq-proof+correspondence",
             "level_claimed": {"category": "proof", "text": c["text"], "design_ref": c["design"]},
-            "level_note": c["note"],
+            "level_note": c["note"] + (" Input dimensions added after the seed waves of session 3: %s." % ADDED[pid] if pid in ADDED else ""),
             "technique": c["technique"],
         })
     allp = [json.loads(l)["id"] for l in open(os.path.join(HERE, "properties.jsonl"))]
